@@ -27,6 +27,28 @@ the outcome (ok / error kind), the resulting layout and the observation
 (tip, revision -> testament sha1 map of the whole ancestry, tags, tree dump,
 status incl. pending merges) are compared with the model and, independently,
 with the observation before (oracle).
+Oracle (no model): tip, revno, testament map and tags never change; a working
+tree that exists before and after a step has the same entries, contents, exec
+bits, file ids, iter_changes output, parents and unknowns; a tree with pending
+changes is never removed (unless forced); a created tree is the clean tree of
+the tip; a successful to_X yields layout X; a successful upgrade yields the
+default formats; the location can always be opened afterwards.
+
+No violation of the property was found on the unchanged tree.  Observations
+(not violations, see the report): a failed to_checkout on a tree-less branch
+without remembered location leaves the freshly created working tree behind
+(modelled: partial_apply_witness); to_standalone on a lightweight checkout
+creates a repository of the default format rather than the branch's; on
+BzrBranch5 (knit-era) branches _select_bind_location raises UpgradeRequired.
+
+Mutants this was built against (scratch worktree): _check ignoring
+has_changes (oracle: tree with pending changes destroyed); create_branch
+without set_last_revision_info (oracle: tip null:); tags not merged from the
+referenced branch (oracle: tags lost); new repository not filled by fetch
+(oracle: location cannot be opened, NoSuchRevision); to_tree planning
+want_bound=True (oracle: layout is not the one asked for + model mismatch);
+Converter5to6 writing revno-1 (oracle: upgrade changed revno).  Harmless
+rewrite kept clean: tree flags of _plan_changes computed by boolean expressions.
 """
 import os
 import random
